@@ -153,3 +153,46 @@ func verifC11ParseRaw() {
 		vReach("raw-valid")
 	}
 }
+
+// verifC11TLSClient: an independent consumer - crypto/tls's client - is given the
+// config list: it must parse it and pick the config (the handshake may fail
+// later for other reasons: there is no server).  Only configs crypto/tls can
+// use are built: KEM 0x0020, a 32-byte key, NewConfig's suites, a DNS-name
+// public name of at least two labels (crypto/tls policy).
+func verifC11TLSClient() {
+	names := []string{"a.b", "pub.example", "a-b.c0.example", vLongDNSName(239), vLongDNSName(240), vLongDNSName(253)}
+	name := names[vInt(0, len(names)-1)]
+	spec := ConfigSpec{Version: 0xfe0d, ID: vByte(), KEM: 0x0020, PublicKey: vBytes(32),
+		CipherSuites: []CipherSuite{{1, 3}, {1, 2}, {1, 1}}, PublicName: []byte(name)}
+	cfg, err := spec.Bytes()
+	vAssert(err == nil, "Bytes")
+	n := vInt(1, 2)
+	cfgs := []Config{cfg}
+	if n == 2 {
+		other := spec
+		other.ID = vByte()
+		c2, _ := other.Bytes()
+		cfgs = append(cfgs, c2)
+	}
+	list, err := ConfigList(cfgs)
+	vAssert(err == nil, "ConfigList")
+	cerr := vTLSClientTry(list)
+	vAssert(cerr != "malformed" && cerr != "novalid", "crypto/tls's client parses the list and accepts the config")
+	vReach("tls-client")
+}
+
+func vLongDNSName(n int) string {
+	// labels of at most 63 bytes, total length n
+	b := make([]byte, n)
+	for i := range b {
+		if i%64 == 63 {
+			b[i] = '.'
+		} else {
+			b[i] = 'a' + byte(i%26)
+		}
+	}
+	if b[n-1] == '.' {
+		b[n-1] = 'z'
+	}
+	return string(b)
+}
